@@ -202,7 +202,13 @@ class Gen:
             # overrides it positionally or by keyword; or the lambda takes *args / a keyword-only parameter
             self.feat.add("called-lambda-default-parameter")
             fn = lam(params, body)
-            form = r.choice(["omitted", "omitted", "positional", "keyword", "vararg", "kwonly"])
+            form = r.choice(["omitted", "omitted", "positional", "keyword", "vararg", "kwonly", "vararg-kwonly-required"])
+            if form == "vararg-kwonly-required" and len(params) >= 2:
+                # a lambda that stays a call (*rest) with a keyword-only parameter WITHOUT default next to one with a default
+                fn.args.vararg = ast.arg(arg="rest_")
+                fn.args.kwonlyargs, fn.args.kw_defaults = [fn.args.args[-1], ast.arg(arg="dflt_")], [None, C(1)]
+                fn.args.args = fn.args.args[:-1]
+                return ast.Call(func=fn, args=args[:-1] + [C(7)], keywords=[ast.keyword(arg=params[-1], value=args[-1])])
             if form == "vararg":
                 fn.args.vararg = ast.arg(arg="rest_")
                 return ast.Call(func=fn, args=args + [C(7)], keywords=[])
